@@ -79,6 +79,7 @@ void World::feed_input(const Input &in) {
 		break;
 	case Input::DROP:
 		probe("drop:" + in.why);
+		if (cl) cl->policy.put("must_be_dropped", JV::str(in.why));
 		if (mode == "exact" && cl && !cl->no_expect) model.on_peer_gone(in.c, true);
 		if (cl) { cl->closing = true; }
 		break;
